@@ -197,6 +197,22 @@ def _filter_identifiers(filter_args):
     return res
 
 
+def _default_identifiers(function_decl, **exception_kwargs):
+    """the identifiers the argument defaults of a signature read."""
+
+    res = set()
+    for c in function_decl.defaults + [
+        c for c in function_decl.kwdefaults if c is not None
+    ]:
+        code = ast.PythonCode(c, **exception_kwargs)
+        # names the default binds itself (comprehension variables)
+        # are not read from outside
+        res.update(
+            code.undeclared_identifiers.difference(code.declared_identifiers)
+        )
+    return res
+
+
 class Expression(Node):
     """defines an inline expression.
 
@@ -511,21 +527,12 @@ class DefTag(Tag):
         return self.function_decl.allargnames
 
     def undeclared_identifiers(self):
-        res = []
-        for c in self.function_decl.defaults + [
-            c for c in self.function_decl.kwdefaults if c is not None
-        ]:
-            code = ast.PythonCode(c, **self.exception_kwargs)
-            # names the default binds itself (comprehension variables)
-            # are not read from outside
-            res += list(
-                code.undeclared_identifiers.difference(
-                    code.declared_identifiers
-                )
-            )
-        return (
-            set(res)
-            .union(_filter_identifiers(self.filter_args))
+        # the defaults are evaluated outside of the def: a default may
+        # read an outer variable named like one of the def's arguments
+        return _default_identifiers(
+            self.function_decl, **self.exception_kwargs
+        ).union(
+            _filter_identifiers(self.filter_args)
             .union(self.expression_undeclared_identifiers)
             .difference(self.function_decl.allargnames)
         )
@@ -608,7 +615,7 @@ class CallTag(Tag):
     def undeclared_identifiers(self):
         return self.code.undeclared_identifiers.difference(
             self.code.declared_identifiers
-        )
+        ).union(_default_identifiers(self.body_decl, **self.exception_kwargs))
 
 
 class CallNamespaceTag(Tag):
@@ -643,7 +650,7 @@ class CallNamespaceTag(Tag):
     def undeclared_identifiers(self):
         return self.code.undeclared_identifiers.difference(
             self.code.declared_identifiers
-        )
+        ).union(_default_identifiers(self.body_decl, **self.exception_kwargs))
 
 
 class InheritTag(Tag):
